@@ -117,11 +117,11 @@ def _apply1(op, a):
             raise Undefined()
         return mp.log10(abs(a))
     if op == "tenexp":
-        if a > 3000:
+        if abs(a) > 3000:          # below 10^-3000 as well: the expression evaluator gives up on such magnitudes in both directions
             raise Undefined()
         return mp.power(10, a)
     if op == "exp":
-        if a > 6900:
+        if abs(a) > 6900:
             raise Undefined()
         return mp.exp(a)
     if op == "sin":
